@@ -386,6 +386,72 @@ func TestStress(t *testing.T) {
 	})
 }
 
+// TestBarrierRounds: simultaneous entry into an idle machine, many rounds (the
+// ownership race window is nanoseconds wide). Handlers count overlaps.
+func TestBarrierRounds(t *testing.T) {
+	st := ev.G()
+	rounds := st.Pick(3000, 50000) / st.Shards
+	workers := 4
+	sc := gen.Schema{States: []gen.StateDef{{Name: "S0"}, {Name: "S1"}, {Name: "S2"}, {Name: "S3"}}}
+	tb := gen.Table{Bindings: []gen.Binding{{Handlers: []gen.HandlerSpec{{Name: "AnyEnter"}, {Name: "AnyState"}}}}}
+	run, err := rec.Exec(rec.Case{Schema: sc, Table: tb}, rec.ExecOpts{})
+	if err != nil {
+		t.Fatal(err)
+	}
+	run.Tracer.SampleTime = false
+	m := run.M
+	var phase, arrived atomic.Int64
+	var wg sync.WaitGroup
+	for wk := 0; wk < workers; wk++ {
+		wg.Add(1)
+		go func(wk int) {
+			defer wg.Done()
+			name := fmt.Sprintf("S%d", wk)
+			for r := 1; r <= rounds; r++ {
+				arrived.Add(1)
+				for phase.Load() < int64(r) {
+				}
+				m.Toggle1(name, nil)
+			}
+		}(wk)
+	}
+	for r := 1; r <= rounds; r++ {
+		for arrived.Load() < int64(r*workers) {
+		}
+		for m.QueueLen() > 0 || m.Transition() != nil || m.VerifQueueProcessing() {
+		}
+		phase.Store(int64(r))
+	}
+	wg.Wait()
+	time.Sleep(2 * time.Millisecond)
+	defer run.Close()
+	if mx := run.Runner.MaxIn.Load(); mx > 1 {
+		ev.G().Pin(map[string]any{"kind": "barrier", "rounds": rounds})
+		t.Fatalf("C04 violated: %d handler bodies ran concurrently (barrier rounds)", mx)
+	}
+	_, evs := run.Tracer.Snapshot()
+	open := ""
+	for _, e := range evs {
+		switch e.Kind {
+		case "init":
+			if open != "" {
+				ev.G().Pin(map[string]any{"kind": "barrier", "rounds": rounds})
+				t.Fatalf("C04 violated: transition %s started while %s was still running (barrier rounds)", e.TxId, open)
+			}
+			open = e.TxId
+		case "end":
+			open = ""
+		}
+	}
+	if m.QueueLen() > 0 && !m.VerifQueueProcessing() {
+		ev.G().Pin(map[string]any{"kind": "barrier", "rounds": rounds})
+		t.Fatalf("C04 violated: stranded queue after barrier rounds (%d queued)", m.QueueLen())
+	}
+	st.Eval(int64(rounds))
+	st.ClassN("barrier-rounds", int64(rounds))
+	st.NonTrivial(fmt.Sprintf("barrier-%d", st.Shard))
+}
+
 func TestKnownAndRegressions(t *testing.T) {
 	st := ev.G()
 	sc := gen.Schema{States: []gen.StateDef{{Name: "S0"}, {Name: "S1", Require: []string{"S2"}}, {Name: "S2"}}}
